@@ -7,3 +7,5 @@ open AC.Props.C09
 #print axioms C09_exponents_increasing
 #print axioms C09_dictionary
 #print axioms C09_nonempty
+#print axioms C09_src_fixed
+#print axioms AC.DecompTie.fixedWindow_tie
